@@ -184,6 +184,33 @@ def run(ctx: Ctx) -> None:
                  decode=lambda m: res_decode(m, unS), oracle=oracle_tree,
                  nontrivial=lambda c: any(any(ch in s for ch in "&<>\"'") for s in raw_leaves(c[0])),
                  kind=lambda c: "tree")
+    list_level(ctx)
+
+
+def list_level(ctx: Ctx) -> None:
+    """top-level TagList rendering (no enclosing tag): trusted markup verbatim, plain text escaped
+    exactly once, in every position"""
+    from .C02 import text_to_html
+    rng = ctx.rng
+    lcases = []
+    for _ in range(ctx.budget(1200, 15000)):
+        items = [trees.rand_child(rng, rng.choice([0, 1, 2]), leaves="TTHHRM", names="bivssck")
+                 for _ in range(rng.choice([1, 2, 3, 4]))]
+        lcases.append((items, rng.randrange(0, 3), rng.choice(["\n", "", "\r\n"]), rng.random() < 0.5))
+
+    def impl(c):
+        return safe_call(lambda: TagList(*[build(d) for d in c[0]]).get_html_string(c[1], c[2], add_ws=c[3]))
+
+    def oracle(c, out):
+        want = safe_call(lambda: TagList(*[build(text_to_html(d)) for d in c[0]]).get_html_string(c[1], c[2], add_ws=c[3]))
+        if out != want:
+            return "in a top-level list, plain text is not escaped exactly once / trusted markup is not verbatim"
+        return None
+
+    differential(ctx, "TagList.get_html_string (trusted markup and text at top level)", lcases,
+                 to_sx=lambda c: [3, [to_sx(d) for d in c[0]], c[1], S(c[2]), 1 if c[3] else 0, 1],
+                 impl=impl, decode=lambda m: res_decode(m, unS), oracle=oracle,
+                 nontrivial=lambda c: any(d[0] in "TH" for d in c[0]), kind=lambda c: "list")
 
 
 def replay(ctx: Ctx, path: str) -> None:
